@@ -57,7 +57,12 @@ fn viol(rep: &mut Report, ty: &str, e: &str, line: &Value, acc: &str, what: Stri
 /// the property's envelope of the exact statistic, so they may differ by at most twice that.  On
 /// the well-conditioned E0 data (small integers, kappa < 10, n <= 6, weights in [0.17, 3]) every
 /// envelope of the property is below 1e-12 relative to max(|statistic|, 1).
-fn cmp_obs_tol(a: &[(String, Option<u64>)], b: &[(String, Option<u64>)]) -> Option<String> {
+///
+/// Under the offset embedding E3 (2^30 + v: kappa about 2e9, n <= 6) the envelopes are about 4e-5
+/// relative for variances, covariances and pearson (C = 16..32) and about 6e-6 absolute for the means; a
+/// formulation that is quadratic in kappa (power sums) is off by kappa^2 * 2^-53, i.e. by more than the
+/// statistic itself.
+fn cmp_obs_tol(a: &[(String, Option<u64>)], b: &[(String, Option<u64>)], offset: bool) -> Option<String> {
     if a.len() != b.len() {
         return Some("different accessor lists".into());
     }
@@ -66,7 +71,14 @@ fn cmp_obs_tol(a: &[(String, Option<u64>)], b: &[(String, Option<u64>)]) -> Opti
             (None, None) => true,
             (Some(p), Some(q)) => {
                 let (p, q) = (f64::from_bits(p), f64::from_bits(q));
-                (p.is_nan() && q.is_nan()) || p == q || (p - q).abs() <= 1e-9 * p.abs().max(q.abs()).max(1.0)
+                let tol = if !offset {
+                    1e-9 * p.abs().max(q.abs()).max(1.0)
+                } else if x.0.contains("mean") && !x.0.contains("variance") && !x.0.contains("error") {
+                    2e-5
+                } else {
+                    1e-4 * p.abs().max(q.abs()).max(1.0)
+                };
+                (p.is_nan() && q.is_nan()) || p == q || (p - q).abs() <= tol
             }
             _ => false,
         };
@@ -348,7 +360,7 @@ fn run_pair<T: PairT>(steps: &[Step], line: &Value, e: &Embedding, pattern: usiz
                 }
             }
             "C08" | "C09" => {
-                if let Some(d) = cmp_obs_tol(&a, &b) {
+                if let Some(d) = cmp_obs_tol(&a, &b, e.name == "E3") {
                     viol(rep, T::NAME, &label, line, "ingestion", d);
                 }
             }
@@ -582,8 +594,9 @@ pub fn process_line(v: &Value, want_prop: &str, rep: &mut Report) {
             return;
         }
     }
-    // C08 / C09 / C17 judge by their own predicates, on the well-conditioned embedding only
-    let embs: &[&str] = if want_prop == "C20" { &["E0", "E5"] } else if want_prop == "C16" { &["E0", "E10"] } else { &["E0"] };
+    // C08 / C09 / C17 judge by their own predicates: C17 on the well-conditioned embedding only, C08 / C09 also
+    // under a common offset of 2^30 (conditioning 2e9)
+    let embs: &[&str] = if want_prop == "C20" { &["E0", "E5"] } else if want_prop == "C16" { &["E0", "E10"] } else if want_prop == "C08" || want_prop == "C09" { &["E0", "E3"] } else { &["E0"] };
     for e in embeddings(embs) {
         let r = std::panic::catch_unwind(std::panic::AssertUnwindSafe(|| {
             let rep = &mut *rep;
